@@ -5,6 +5,7 @@ import Mathlib.Tactic.Positivity
 import Mathlib.Tactic.Push
 import Mathlib.Tactic.LinearCombination
 import Mathlib.Tactic.Zify
+import Mathlib.Data.Int.GCD
 
 /-! C12 probe: `Matrix::from_u64_prefix` (Lehmer step with Jebelean's exact conditions) returns either the
     identity or a matrix that is valid for *every* pair of big numbers with the given prefixes:
@@ -82,10 +83,13 @@ structure Inv (A0 A1 L : ℕ) (s : St) (ag : ℤ) : Prop where
   gv2 : s.v0 + s.v1 ≤ s.v2
   gu3 : s.u1 + s.u2 ≤ s.u3
   gv3 : s.v1 + s.v2 ≤ s.v3
+  p2 : 1 ≤ s.u2
+  p3 : 1 ≤ s.u3
+  p1 : 1 ≤ s.u1 ∨ s.v0 = 0
 
 theorem inv_step (A0 A1 L : ℕ) (hL : 0 < L) (s : St) (ag : ℤ) (h : Inv A0 A1 L s ag) (hc : L ≤ s.a3) :
     Inv A0 A1 L (halfStep s) s.a1 := by
-  obtain ⟨e0, e1, e2, e3, d01, d12, d23, og, o1, o2, lim, gu2, gv2, gu3, gv3⟩ := h
+  obtain ⟨e0, e1, e2, e3, d01, d12, d23, og, o1, o2, lim, gu2, gv2, gu3, gv3, p2, p3, p1⟩ := h
   have ha3 : 0 < s.a3 := by omega
   obtain ⟨q, hq⟩ : ∃ q, q = s.a2 / s.a3 := ⟨_, rfl⟩
   have hq1 : 1 ≤ q := by rw [hq]; exact Nat.div_pos (le_of_lt o2) ha3
@@ -112,6 +116,9 @@ theorem inv_step (A0 A1 L : ℕ) (hL : 0 < L) (s : St) (ag : ℤ) (h : Inv A0 A1
   · exact gv3
   · omega
   · omega
+  · exact p3
+  · omega
+  · left; exact p2
 
 theorem inv_loop (A0 A1 L : ℕ) (hL : 0 < L) (f : ℕ) (s : St) (ag : ℤ) (h : Inv A0 A1 L s ag) :
     ∃ ag', Inv A0 A1 L (loop L f s) ag' := by
@@ -143,10 +150,11 @@ theorem det_pos (c e : ℤ) {a b : ℤ} (ha : 0 ≤ a) (hb : 0 ≤ b) (h : c * b
 
 set_option maxHeartbeats 1000000 in
 theorem sel_valid (A0 A1 L : ℕ) (s : St) (ag : ℤ) (h : Inv A0 A1 L s ag)
-    (hA : A0 < L * L) (hAle : A1 ≤ A0) : Valid A0 A1 (select s) := by
-  obtain ⟨e0, e1, e2, e3, d01, d12, d23, og, o1, o2, lim, gu2, gv2, gu3, gv3⟩ := h
+    (hA : A0 < L * L) (hAle : A1 ≤ A0) :
+    select s = ident ∨ (Valid A0 A1 (select s) ∧ 1 ≤ (select s).2.2.1) := by
+  obtain ⟨e0, e1, e2, e3, d01, d12, d23, og, o1, o2, lim, gu2, gv2, gu3, gv3, p2, p3, p1⟩ := h
   obtain ⟨a1, a2, a3, u0, v0, u1, v1, u2, v2, u3, v3, even⟩ := s
-  simp only at e0 e1 e2 e3 d01 d12 d23 og o1 o2 lim gu2 gv2 gu3 gv3
+  simp only at e0 e1 e2 e3 d01 d12 d23 og o1 o2 lim gu2 gv2 gu3 gv3 p2 p3 p1
   have hss : sgn even * sgn even = 1 := by cases even <;> simp [sgn]
   -- cofactor bounds from the Bezout-type identities
   have hb1 : (v2 : ℤ) * a1 + v1 * a2 = A0 := by
@@ -167,6 +175,23 @@ theorem sel_valid (A0 A1 L : ℕ) (s : St) (ag : ℤ) (h : Inv A0 A1 L s ag)
     omega
   have c12 : ((a1 - a2 : ℕ) : ℤ) = (a1 : ℤ) - a2 := Nat.cast_sub (by omega)
   have c23 : ((a2 - a3 : ℕ) : ℤ) = (a2 : ℤ) - a3 := Nat.cast_sub (by omega)
+  have hid : u1 = 0 → ((u0, v0, u1, v1, even) : Mat) = ident := by
+    intro h0
+    have hv0 : v0 = 0 := by
+      rcases p1 with h | h
+      · omega
+      · exact h
+    rw [h0, hv0] at d01
+    simp only [Nat.cast_zero, zero_mul, sub_zero] at d01
+    cases even
+    · simp only [sgn, Bool.false_eq_true, if_false] at d01
+      have : (0 : ℤ) ≤ (u0 : ℤ) * v1 := by positivity
+      omega
+    · simp only [sgn, if_true] at d01
+      have d01n : u0 * v1 = 1 := by exact_mod_cast d01
+      have h1 : u0 = 1 := Nat.eq_one_of_mul_eq_one_right d01n
+      have h2 : v1 = 1 := Nat.eq_one_of_mul_eq_one_left d01n
+      rw [h0, hv0, h1, h2]; rfl
   cases even
   · -- odd orientation
     simp only [sgn, Bool.false_eq_true, if_false] at e0 e1 e2 e3 d01 d12 d23
@@ -175,7 +200,7 @@ theorem sel_valid (A0 A1 L : ℕ) (s : St) (ag : ℤ) (h : Inv A0 A1 L s ag)
     · next t1 =>
       split
       · next t2 =>
-        refine ⟨by simp only [sgn]; push_cast; linear_combination d23, ?_⟩
+        right; refine ⟨⟨by simp only [sgn]; push_cast; linear_combination d23, ?_⟩, p3⟩
         intro K α β hK hα0 hα hβ0 hβ
         simp only [Bool.false_eq_true, if_false]
         have ht2 : (v3 : ℤ) ≤ a3 := by exact_mod_cast t2.1
@@ -183,7 +208,7 @@ theorem sel_valid (A0 A1 L : ℕ) (s : St) (ag : ℤ) (h : Inv A0 A1 L s ag)
         exact site K β α A1 A0 v2 u2 v3 u3 a2 a3 hK hβ0 hβ hα0 hα (by positivity) (by positivity) (by positivity)
           (by positivity) (by rw [e2]; ring) (by rw [e3]; ring) ht2 ht3
           (det_pos (v2 : ℤ) (v3 : ℤ) (by positivity) (by positivity) (by first | exact Or.inl (by linear_combination d23) | exact Or.inl (by linear_combination -d23) | exact Or.inr (by linear_combination d23) | exact Or.inr (by linear_combination -d23)))
-      · refine ⟨by simp only [sgn]; push_cast; linear_combination d12, ?_⟩
+      · right; refine ⟨⟨by simp only [sgn]; push_cast; linear_combination d12, ?_⟩, p2⟩
         intro K α β hK hα0 hα hβ0 hβ
         simp only [if_true]
         have ht2 : (u2 : ℤ) ≤ a2 := by exact_mod_cast (by omega : u2 ≤ a2)
@@ -191,7 +216,9 @@ theorem sel_valid (A0 A1 L : ℕ) (s : St) (ag : ℤ) (h : Inv A0 A1 L s ag)
         exact site K α β A0 A1 u1 v1 u2 v2 a1 a2 hK hα0 hα hβ0 hβ (by positivity) (by positivity) (by positivity)
           (by positivity) (by rw [e1]; ring) (by rw [e2]; ring) ht2 ht3
           (det_pos (u1 : ℤ) (u2 : ℤ) (by positivity) (by positivity) (by first | exact Or.inl (by linear_combination d12) | exact Or.inl (by linear_combination -d12) | exact Or.inr (by linear_combination d12) | exact Or.inr (by linear_combination -d12)))
-    · refine ⟨by simp only [sgn]; push_cast; linear_combination d01, ?_⟩
+    · rcases Nat.eq_zero_or_pos u1 with hu1 | hu1
+      · exact Or.inl (hid hu1)
+      right; refine ⟨⟨by simp only [sgn]; push_cast; linear_combination d01, ?_⟩, hu1⟩
       intro K α β hK hα0 hα hβ0 hβ
       simp only [Bool.false_eq_true, if_false]
       have ht2 : (v1 : ℤ) ≤ a1 := by exact_mod_cast (by omega : v1 ≤ a1)
@@ -208,7 +235,7 @@ theorem sel_valid (A0 A1 L : ℕ) (s : St) (ag : ℤ) (h : Inv A0 A1 L s ag)
     · next t1 =>
       split
       · next t2 =>
-        refine ⟨by simp only [sgn]; push_cast; linear_combination d23, ?_⟩
+        right; refine ⟨⟨by simp only [sgn]; push_cast; linear_combination d23, ?_⟩, p3⟩
         intro K α β hK hα0 hα hβ0 hβ
         simp only [if_true]
         have ht2 : (u3 : ℤ) ≤ a3 := by exact_mod_cast t2.1
@@ -216,7 +243,7 @@ theorem sel_valid (A0 A1 L : ℕ) (s : St) (ag : ℤ) (h : Inv A0 A1 L s ag)
         exact site K α β A0 A1 u2 v2 u3 v3 a2 a3 hK hα0 hα hβ0 hβ (by positivity) (by positivity) (by positivity)
           (by positivity) (by rw [e2]; ring) (by rw [e3]; ring) ht2 ht3
           (det_pos (u2 : ℤ) (u3 : ℤ) (by positivity) (by positivity) (by first | exact Or.inl (by linear_combination d23) | exact Or.inl (by linear_combination -d23) | exact Or.inr (by linear_combination d23) | exact Or.inr (by linear_combination -d23)))
-      · refine ⟨by simp only [sgn]; push_cast; linear_combination d12, ?_⟩
+      · right; refine ⟨⟨by simp only [sgn]; push_cast; linear_combination d12, ?_⟩, p2⟩
         intro K α β hK hα0 hα hβ0 hβ
         simp only [Bool.false_eq_true, if_false]
         have ht2 : (v2 : ℤ) ≤ a2 := by exact_mod_cast (by omega : v2 ≤ a2)
@@ -224,7 +251,9 @@ theorem sel_valid (A0 A1 L : ℕ) (s : St) (ag : ℤ) (h : Inv A0 A1 L s ag)
         exact site K β α A1 A0 v1 u1 v2 u2 a1 a2 hK hβ0 hβ hα0 hα (by positivity) (by positivity) (by positivity)
           (by positivity) (by rw [e1]; ring) (by rw [e2]; ring) ht2 ht3
           (det_pos (v1 : ℤ) (v2 : ℤ) (by positivity) (by positivity) (by first | exact Or.inl (by linear_combination d12) | exact Or.inl (by linear_combination -d12) | exact Or.inr (by linear_combination d12) | exact Or.inr (by linear_combination -d12)))
-    · refine ⟨by simp only [sgn]; push_cast; linear_combination d01, ?_⟩
+    · rcases Nat.eq_zero_or_pos u1 with hu1 | hu1
+      · exact Or.inl (hid hu1)
+      right; refine ⟨⟨by simp only [sgn]; push_cast; linear_combination d01, ?_⟩, hu1⟩
       intro K α β hK hα0 hα hβ0 hβ
       simp only [if_true]
       have ht2 : (u1 : ℤ) ≤ a1 := by exact_mod_cast (by omega : u1 ≤ a1)
@@ -253,7 +282,7 @@ def prefixM (L fuel a0 a1 : ℕ) : Mat :=
 
 set_option maxHeartbeats 1000000 in
 theorem prefix_valid (L fuel a0 a1 : ℕ) (hL : 0 < L) (hle : a1 ≤ a0) (hA : a0 < L * L) :
-    prefixM L fuel a0 a1 = ident ∨ Valid a0 a1 (prefixM L fuel a0 a1) := by
+    prefixM L fuel a0 a1 = ident ∨ (Valid a0 a1 (prefixM L fuel a0 a1) ∧ 1 ≤ (prefixM L fuel a0 a1).2.2.1) := by
   unfold prefixM
   split
   · left; rfl
@@ -273,7 +302,7 @@ theorem prefix_valid (L fuel a0 a1 : ℕ) (hL : 0 < L) (hle : a1 ≤ a0) (hA : a
     · split
       · next t =>
         right
-        refine ⟨by simp [sgn], ?_⟩
+        refine ⟨⟨by simp [sgn], ?_⟩, le_refl _⟩
         intro K α β hK hα0 hα hβ0 hβ
         simp only [Bool.false_eq_true, if_false]
         have c12 : ((a1 - a2 : ℕ) : ℤ) = (a1 : ℤ) - a2 := Nat.cast_sub (by omega)
@@ -288,7 +317,6 @@ theorem prefix_valid (L fuel a0 a1 : ℕ) (hL : 0 < L) (hle : a1 ≤ a0) (hA : a
       · left; rfl
     · next h2 =>
       push Not at h2
-      right
       have ha2pos : 0 < a2 := by omega
       have ha2lt : a2 < a1 := by omega
       obtain ⟨q', hq'⟩ : ∃ q', q' = a1 / a2 := ⟨_, rfl⟩
@@ -317,6 +345,9 @@ theorem prefix_valid (L fuel a0 a1 : ℕ) (hL : 0 < L) (hle : a1 ≤ a0) (hA : a
         · omega
         · omega
         · omega
+        · omega
+        · omega
+        · right; trivial
       obtain ⟨ag', hfin⟩ := inv_loop a0 a1 L hL fuel _ _ hinit
       simp only [Nat.mul_one] at hfin ⊢
       exact sel_valid a0 a1 L _ ag' hfin hA hle
@@ -333,4 +364,129 @@ theorem pack_step (L u v u' v' q : ℕ) (hv : v + q * v' < L) :
   · rw [e, Nat.add_comm, Nat.add_mul_div_right _ _ hL, Nat.div_eq_of_lt hv, Nat.zero_add]
   · rw [e, Nat.add_comm, Nat.add_mul_mod_self_right, Nat.mod_eq_of_lt hv]
 
+
+/-- `Matrix::apply` on naturals (the code computes mod `2^BITS`; the true values are in range). -/
+def applyN (m : Mat) (a b : ℕ) : ℕ × ℕ :=
+  if m.2.2.2.2 then (m.1 * a - m.2.1 * b, m.2.2.2.1 * b - m.2.2.1 * a)
+  else (m.2.1 * b - m.1 * a, m.2.2.1 * a - m.2.2.2.1 * b)
+
+/-- a valid matrix makes progress and preserves the gcd, for every completion of the prefixes. -/
+theorem apply_progress (A0 A1 : ℕ) (m : Mat) (hv : Valid A0 A1 m) (hm2 : 1 ≤ m.2.2.1)
+    (K α β : ℕ) (hK : 1 ≤ K) (hα : α < K) (hβ : β < K) :
+    Nat.gcd (applyN m (A0 * K + α) (A1 * K + β)).1 (applyN m (A0 * K + α) (A1 * K + β)).2
+        = Nat.gcd (A0 * K + α) (A1 * K + β)
+    ∧ (applyN m (A0 * K + α) (A1 * K + β)).2 < (applyN m (A0 * K + α) (A1 * K + β)).1
+    ∧ (applyN m (A0 * K + α) (A1 * K + β)).2 < A1 * K + β := by
+  obtain ⟨m0, m1, m2, m3, ev⟩ := m
+  obtain ⟨hdet, hall⟩ := hv
+  have h := hall K α β (by exact_mod_cast hK) (by positivity) (by exact_mod_cast hα) (by positivity)
+    (by exact_mod_cast hβ)
+  simp only at hdet h hm2
+  obtain ⟨A, hA⟩ : ∃ A, A = A0 * K + α := ⟨_, rfl⟩
+  obtain ⟨B, hB⟩ : ∃ B, B = A1 * K + β := ⟨_, rfl⟩
+  have cA : ((A0 : ℤ) * K + α) = (A : ℤ) := by rw [hA]; push_cast; ring
+  have cB : ((A1 : ℤ) * K + β) = (B : ℤ) := by rw [hB]; push_cast; ring
+  rw [cA, cB] at h
+  rw [← hA, ← hB]
+  unfold applyN
+  cases ev
+  · -- odd: c = m1*B - m0*A, d = m2*A - m3*B, det = -1
+    simp only [Bool.false_eq_true, if_false, sgn] at h hdet ⊢
+    obtain ⟨hd0, hdc⟩ := h
+    have hle_d : m3 * B ≤ m2 * A := by
+      have : ((m3 * B : ℕ) : ℤ) ≤ ((m2 * A : ℕ) : ℤ) := by push_cast; linarith
+      exact_mod_cast this
+    have hle_c : m0 * A ≤ m1 * B := by
+      have : ((m0 * A : ℕ) : ℤ) ≤ ((m1 * B : ℕ) : ℤ) := by push_cast; linarith
+      exact_mod_cast this
+    obtain ⟨c, hc⟩ : ∃ c, c = m1 * B - m0 * A := ⟨_, rfl⟩
+    obtain ⟨d, hd⟩ : ∃ d, d = m2 * A - m3 * B := ⟨_, rfl⟩
+    have cc : (c : ℤ) = (m1 : ℤ) * B - m0 * A := by rw [hc]; push_cast [Nat.cast_sub hle_c]; ring
+    have cd : (d : ℤ) = (m2 : ℤ) * A - m3 * B := by rw [hd]; push_cast [Nat.cast_sub hle_d]; ring
+    rw [← hc, ← hd]
+    have eA : (A : ℤ) = m3 * c + m1 * d := by rw [cc, cd]; linear_combination ((A : ℤ)) * hdet
+    have eB : (B : ℤ) = m2 * c + m0 * d := by rw [cc, cd]; linear_combination ((B : ℤ)) * hdet
+    have eAn : A = m3 * c + m1 * d := by exact_mod_cast eA
+    have eBn : B = m2 * c + m0 * d := by exact_mod_cast eB
+    have hdcn : d < c := by
+      have : (d : ℤ) < c := by rw [cc, cd]; exact hdc
+      exact_mod_cast this
+    refine ⟨?_, hdcn, ?_⟩
+    · apply Nat.dvd_antisymm
+      · apply Nat.dvd_gcd
+        · rw [eAn]; exact dvd_add (Dvd.dvd.mul_left (Nat.gcd_dvd_left c d) _) (Dvd.dvd.mul_left (Nat.gcd_dvd_right c d) _)
+        · rw [eBn]; exact dvd_add (Dvd.dvd.mul_left (Nat.gcd_dvd_left c d) _) (Dvd.dvd.mul_left (Nat.gcd_dvd_right c d) _)
+      · apply Nat.dvd_gcd
+        · rw [hc]; exact Nat.dvd_sub (Dvd.dvd.mul_left (Nat.gcd_dvd_right A B) _) (Dvd.dvd.mul_left (Nat.gcd_dvd_left A B) _)
+        · rw [hd]; exact Nat.dvd_sub (Dvd.dvd.mul_left (Nat.gcd_dvd_left A B) _) (Dvd.dvd.mul_left (Nat.gcd_dvd_right A B) _)
+    · rw [eBn]
+      have : c ≤ m2 * c := Nat.le_mul_of_pos_left _ hm2
+      have : 0 ≤ m0 * d := Nat.zero_le _
+      omega
+  · -- even: c = m0*A - m1*B, d = m3*B - m2*A, det = 1
+    simp only [if_true, sgn] at h hdet ⊢
+    obtain ⟨hd0, hdc⟩ := h
+    have hle_d : m2 * A ≤ m3 * B := by
+      have : ((m2 * A : ℕ) : ℤ) ≤ ((m3 * B : ℕ) : ℤ) := by push_cast; linarith
+      exact_mod_cast this
+    have hle_c : m1 * B ≤ m0 * A := by
+      have : ((m1 * B : ℕ) : ℤ) ≤ ((m0 * A : ℕ) : ℤ) := by push_cast; linarith
+      exact_mod_cast this
+    obtain ⟨c, hc⟩ : ∃ c, c = m0 * A - m1 * B := ⟨_, rfl⟩
+    obtain ⟨d, hd⟩ : ∃ d, d = m3 * B - m2 * A := ⟨_, rfl⟩
+    have cc : (c : ℤ) = (m0 : ℤ) * A - m1 * B := by rw [hc]; push_cast [Nat.cast_sub hle_c]; ring
+    have cd : (d : ℤ) = (m3 : ℤ) * B - m2 * A := by rw [hd]; push_cast [Nat.cast_sub hle_d]; ring
+    rw [← hc, ← hd]
+    have eA : (A : ℤ) = m3 * c + m1 * d := by rw [cc, cd]; linear_combination (-(A : ℤ)) * hdet
+    have eB : (B : ℤ) = m2 * c + m0 * d := by rw [cc, cd]; linear_combination (-(B : ℤ)) * hdet
+    have eAn : A = m3 * c + m1 * d := by exact_mod_cast eA
+    have eBn : B = m2 * c + m0 * d := by exact_mod_cast eB
+    have hdcn : d < c := by
+      have : (d : ℤ) < c := by rw [cc, cd]; exact hdc
+      exact_mod_cast this
+    refine ⟨?_, hdcn, ?_⟩
+    · apply Nat.dvd_antisymm
+      · apply Nat.dvd_gcd
+        · rw [eAn]; exact dvd_add (Dvd.dvd.mul_left (Nat.gcd_dvd_left c d) _) (Dvd.dvd.mul_left (Nat.gcd_dvd_right c d) _)
+        · rw [eBn]; exact dvd_add (Dvd.dvd.mul_left (Nat.gcd_dvd_left c d) _) (Dvd.dvd.mul_left (Nat.gcd_dvd_right c d) _)
+      · apply Nat.dvd_gcd
+        · rw [hc]; exact Nat.dvd_sub (Dvd.dvd.mul_left (Nat.gcd_dvd_left A B) _) (Dvd.dvd.mul_left (Nat.gcd_dvd_right A B) _)
+        · rw [hd]; exact Nat.dvd_sub (Dvd.dvd.mul_left (Nat.gcd_dvd_right A B) _) (Dvd.dvd.mul_left (Nat.gcd_dvd_left A B) _)
+    · rw [eBn]
+      have : c ≤ m2 * c := Nat.le_mul_of_pos_left _ hm2
+      have : 0 ≤ m0 * d := Nat.zero_le _
+      omega
+
+/-- the `gcd` loop with an abstract matrix oracle. -/
+def gcdLoop (mat : ℕ → ℕ → Mat) : ℕ → ℕ → ℕ → ℕ
+  | 0, a, _ => a
+  | f + 1, a, b =>
+    if b = 0 then a
+    else if mat a b = ident then gcdLoop mat f b (a % b)
+    else gcdLoop mat f (applyN (mat a b) a b).1 (applyN (mat a b) a b).2
+
+/-- any oracle whose non-identity answers preserve the gcd and make progress gives the gcd. -/
+theorem gcdLoop_spec (mat : ℕ → ℕ → Mat)
+    (hmat : ∀ a b, b ≤ a → 0 < b → mat a b = ident ∨
+      (Nat.gcd (applyN (mat a b) a b).1 (applyN (mat a b) a b).2 = Nat.gcd a b
+        ∧ (applyN (mat a b) a b).2 < (applyN (mat a b) a b).1 ∧ (applyN (mat a b) a b).2 < b))
+    (f a b : ℕ) (hab : b ≤ a) (hf : b < f) : gcdLoop mat f a b = Nat.gcd a b := by
+  induction f generalizing a b with
+  | zero => omega
+  | succ f ih =>
+    simp only [gcdLoop]
+    split
+    · next hb => rw [hb, Nat.gcd_zero_right]
+    · next hb =>
+      have hb0 : 0 < b := Nat.pos_of_ne_zero hb
+      split
+      · rw [ih b (a % b) (le_of_lt (Nat.mod_lt _ hb0)) (by have := Nat.mod_lt a hb0; omega)]
+        rw [Nat.gcd_comm a b, Nat.gcd_rec b a, Nat.gcd_comm]
+      · next hne =>
+        rcases hmat a b hab hb0 with h | ⟨h1, h2, h3⟩
+        · exact absurd h hne
+        · rw [ih _ _ (le_of_lt h2) (by omega), h1]
+
+#print axioms apply_progress
+#print axioms gcdLoop_spec
 end Lh
